@@ -125,6 +125,21 @@ def run_case(spec, ctx):
                 r = raw(s)
                 if v[0] == 'optimal':
                     if r[0] == 'optimal' and abs(r[1] - v[1].objval) > lim + 10 * tol * abs(r[1]):
+                        if s == 'grb' and 'Q' in cls:
+                            # Gurobi's default barrier tolerance for QCPs can stop early on one
+                            # formulation of a program and not on another: retry tightened
+                            try:
+                                from rsome import grb_solver
+                                import warnings as _w
+                                with _w.catch_warnings():
+                                    _w.simplefilter('ignore')
+                                    t2 = grb_solver.solve(f, display=False,
+                                                          params={'BarQCPConvTol': 1e-10})
+                                if t2.x is not None and abs(t2.objval - r[1]) <= lim + 10 * tol * abs(r[1]):
+                                    ctx.count('gurobi_qcp_tolerance_artifact')
+                                    continue
+                            except Exception:
+                                pass
                         detail.append({'what': 'interface optimum differs from the same solver '
                                        'called directly', 'solver': s,
                                        'interface': float(v[1].objval), 'direct': r[1]})
